@@ -19,6 +19,7 @@ import (
 // guard runs check and converts a panic of the code under test into a
 // Failure.
 func guard[C any](check func(C, *ev.Rec) *ev.Failure, c C, rec *ev.Rec) *ev.Failure {
+	announce(rec, c)
 	// a call into the code under test that never returns must become a
 	// reported failure, not a timeout of the test process: the case runs in
 	// its own goroutine under a generous watchdog (the slowest legitimate
@@ -35,6 +36,28 @@ func guard[C any](check func(C, *ev.Rec) *ev.Failure, c C, rec *ev.Rec) *ev.Fail
 	case <-time.After(limit):
 		return ev.Fail(fmt.Sprintf("the case did not finish within %v: a call into the library under test does not return", limit), "result", "hang")
 	}
+}
+
+// announce records the case that is about to run. A fatal error of the Go
+// runtime inside the library (stack exhaustion, concurrent map writes, ...)
+// cannot be recovered: the process dies, and the driver turns the last
+// announced case into the replay file of a violation.
+func announce[C any](rec *ev.Rec, c C) {
+	dir := os.Getenv("VERIF_WORKDIR")
+	if dir == "" {
+		return
+	}
+	b, err := json.Marshal(replayFile[C]{Property: rec.ID, Case: c, Failure: &ev.Failure{Msg: "the process died while this case ran"}})
+	if err != nil {
+		return
+	}
+	os.WriteFile(filepath.Join(dir, "current-case.json"), b, 0o644)
+}
+
+func init() {
+	// no code under test needs a deep stack: a recursion whose depth grows
+	// with the input dies here after 64 MiB instead of after 1 GiB
+	debug.SetMaxStack(64 << 20)
 }
 
 func guardPanic[C any](check func(C, *ev.Rec) *ev.Failure, c C, rec *ev.Rec) (f *ev.Failure) {
